@@ -207,7 +207,7 @@ def build_harness(bins=None, extra_env=None, timeout=3000):
     with Lock("cargo"):
         lock = os.path.join(HARNESS, "Cargo.lock")
         rlock = os.path.join(REPO, "Cargo.lock")
-        env = {"RUSTFLAGS": f"--cfg {GUARD}"}
+        env = {"RUSTFLAGS": f"--cfg {GUARD}", "CARGO_TARGET_DIR": TARGET}
         if extra_env: env.update(extra_env)
         cmd = ["cargo", "build", "--offline"]
         for b in (bins or []): cmd += ["--bin", b]
